@@ -1,6 +1,7 @@
-/* Proof unit for C04 / date-time parsing: the REAL source/date_time.c driven by plain harnesses over ALL byte strings the
- * code accepts for inspection (aws_date_time_init_from_str_cursor refuses more than AWS_DATE_TIME_STR_MAX_LEN = 100 bytes
- * before it looks at them), so unwinding 101 times with unwinding assertions is a complete proof (DESIGN 5/C04, "CU").
+/* Proof unit for C04 / date-time parsing, complete-unwinding form: the REAL source/date_time.c driven by a plain harness over
+ * ALL byte strings its only caller lets through (aws_date_time_init_from_str_cursor refuses more than
+ * AWS_DATE_TIME_STR_MAX_LEN = 100 bytes before it looks at them), so unwinding 101 times with unwinding assertions is a
+ * complete proof for that domain (DESIGN 5/C04, "CU").
  * The input lives in a heap object of EXACTLY len bytes: every read outside the input is a failed bounds obligation.
  * libc calendar functions (timegm/mktime/gmtime_r/localtime_r behind aws_timegm/aws_gmtime/aws_localtime) have no body:
  * CBMC returns arbitrary values and leaves the out-parameters alone - the parser is checked "up to the libc calls". */
@@ -31,28 +32,23 @@ static struct aws_byte_cursor any_input(size_t cap) {
     return c;
 }
 
-/* ---- the public entry point, every format selector (also invalid enum values), every input ---- */
-void h_init_from_str_cursor(void) {
+/* ---- s_parse_iso_8601 on every byte string of at most 100 bytes (the cap of its only caller); the assertions are the
+ *      ensures clauses of its contract in contracts/date_time.h, which the unit dt_init_from_str_cursor relies on ---- */
+#define DIGIT(c) ((c) >= '0' && (c) <= '9')
+#define DIG(p, i) ((int)((p)[i]) - '0')
+void h_parse_iso_8601_cu(void) {
     GHOST_RESET_COMMON();
-    struct aws_byte_cursor cur = any_input(AWS_DATE_TIME_STR_MAX_LEN);
-    struct aws_date_time dt;
-    struct aws_date_time before = dt;
-    int fmt = nondet_int();
-    int r = aws_date_time_init_from_str_cursor(&dt, &cur, (enum aws_date_format)fmt);
-    __CPROVER_assert(r == AWS_OP_SUCCESS || r == AWS_OP_ERR, "result is 0 or -1");
-    __CPROVER_assert((r == AWS_OP_ERR) == (g_raise_count == 1), "an error code is registered exactly when -1 is returned");
-    __CPROVER_assert(cur.len > AWS_DATE_TIME_STR_MAX_LEN ==> r == AWS_OP_ERR && g_last_error == AWS_ERROR_OVERFLOW_DETECTED,
-                     "longer than the documented limit: refused with OVERFLOW_DETECTED");
-    __CPROVER_assert(cur.len > AWS_DATE_TIME_STR_MAX_LEN ==> dt.timestamp == before.timestamp && dt.tz[0] == before.tz[0] && dt.utc_assumed == before.utc_assumed,
-                     "refused for length: *dt untouched");
-    __CPROVER_assert(cur.len <= AWS_DATE_TIME_STR_MAX_LEN && r == AWS_OP_ERR ==> g_last_error == AWS_ERROR_INVALID_DATE_STR,
-                     "unparsable text: INVALID_DATE_STR");
-    __CPROVER_assert(cur.len <= AWS_DATE_TIME_STR_MAX_LEN ==> dt.tz[5] == 0, "time-zone text stays NUL-terminated");
-    __CPROVER_assert(r == AWS_OP_SUCCESS ==> dt.milliseconds == 0, "parsed dates have no millisecond part");
-    __CPROVER_assert(cur.len == 0 ==> r == AWS_OP_ERR, "the empty string is not a date");
-    if (r == AWS_OP_SUCCESS && fmt == AWS_DATE_FORMAT_RFC822) CANARY("an RFC 822 date is accepted");
-    if (r == AWS_OP_SUCCESS && fmt == AWS_DATE_FORMAT_ISO_8601) CANARY("an ISO 8601 date is accepted");
-    if (r == AWS_OP_SUCCESS && fmt == AWS_DATE_FORMAT_AUTO_DETECT && dt.tz[0] == '+') CANARY("auto-detect falls through to RFC 822 with a numeric zone");
-    if (r == AWS_OP_ERR && cur.len <= AWS_DATE_TIME_STR_MAX_LEN) CANARY("unparsable input refused");
-    if (r == AWS_OP_ERR && cur.len > AWS_DATE_TIME_STR_MAX_LEN) CANARY("over-long input refused");
+    struct aws_byte_cursor str = any_input(AWS_DATE_TIME_STR_MAX_LEN);
+    __CPROVER_assume(str.len <= AWS_DATE_TIME_STR_MAX_LEN);
+    struct tm tm;
+    time_t off;
+    bool r = s_parse_iso_8601(str, &tm, &off);
+    __CPROVER_assert(r ==> str.len >= 8 && DIGIT(str.ptr[0]) && DIGIT(str.ptr[1]) && DIGIT(str.ptr[2]) && DIGIT(str.ptr[3]), "accepted: at least YYYYMMDD, starting with four digits");
+    __CPROVER_assert(r ==> tm.tm_year == 1000 * DIG(str.ptr, 0) + 100 * DIG(str.ptr, 1) + 10 * DIG(str.ptr, 2) + DIG(str.ptr, 3) - 1900, "year value");
+    __CPROVER_assert(r ==> tm.tm_mon >= -1 && tm.tm_mon <= 98 && tm.tm_mday >= 0 && tm.tm_mday <= 99 && tm.tm_hour >= 0 && tm.tm_hour <= 99 &&
+                               tm.tm_min >= 0 && tm.tm_min <= 99 && tm.tm_sec >= 0 && tm.tm_sec <= 99, "two-digit field ranges");
+    __CPROVER_assert(r ==> off >= -(99 * 3600 + 99 * 60) && off <= 99 * 3600 + 99 * 60, "offset range");
+    __CPROVER_assert(r && str.len == 8 ==> off == 0 && tm.tm_hour == 0 && tm.tm_min == 0 && tm.tm_sec == 0, "date only: no time, no offset");
+    __CPROVER_assert(g_raise_count == 0, "the parser itself registers no error");
+    if (r && str.len == 8) CANARY("date only"); else if (r && str.len > 24) CANARY("date, time, fraction, offset"); else if (r) CANARY("date and time"); else CANARY("rejected");
 }
